@@ -390,6 +390,7 @@ def c14_rust(ctx):
     c14_regex_threading(ctx, F)
     c14_tie_break(ctx, F)
     c14_lex_state_merge(ctx, F)
+    c14_lex_minimize(ctx, F)
     c14_prefer(ctx, F)
     c14_group_transitions(ctx, F)
     fn = find_fn(ctx, F, "build_tables::identify_keywords", "G3")
@@ -486,6 +487,68 @@ def c14_lex_state_merge(ctx, F):
         ctx.ok("G4", "merge_token_set:checks-use-check_token_conflicts", "%d directed conflict checks (check_token_conflicts)" % len(cl))
     else:
         ctx.bad("G4", "merge_token_set:checks-use-check_token_conflicts", "merge_token_set has only %d closure(s) calling check_token_conflicts; the conflict test is directed and must be made from both token sets" % len(cl))
+
+
+def c14_lex_minimize(ctx, F):
+    """C14.G5: two lex states are merged only if nothing the generated lexer does in them differs.  The initial
+    partition (the signature built in minimize_lex_table) and the refinement test (lex_states_differ) together must
+    look at every field of a lex state: accept action, presence of an EOF action, and per transition the character
+    set, whether the character is consumed as part of the token or skipped (`in_main_token`), and the target state."""
+    sig = find_fn(ctx, F, "build_lex_table::minimize_lex_table", "G5")
+    dif = find_fn(ctx, F, "build_lex_table::lex_states_differ", "G5")
+    if not sig or not dif:
+        return
+    fields = {}
+    for rec in ("tables::LexState", "tables::AdvanceAction"):
+        fs = adt_fields(F, rec)
+        if not fs:
+            ctx.bad("G5", "minimize_lex_table:fields:" + rec, "struct %s not found" % rec)
+            return
+        fields[rec] = fs
+
+    def reads(fn):
+        out = set()
+        for g in [fn] + [f for f in F.fn_list if f.name.startswith(fn.name + "::{closure")]:
+            for pt, e in g.points():
+                for n in walk(e):
+                    if n.get("k") == "mem" and n.get("rec") in fields:
+                        out.add((n["rec"], n["f"]))
+        return out
+    # the signature is built before the refinement loop: only reads on the way to the first split_state_id_groups call count
+    split = [pt for pt, c, d in calls_named(sig, "split_state_id_groups")]
+    pre = set()
+    if split:
+        from flow import reachable_blocks
+        before = {b for b in sig.blocks if split[0][0] in reachable_blocks(sig, b)}
+        for pt, e in sig.points():
+            if pt[0] in before:
+                for n in walk(e):
+                    if n.get("k") == "mem" and n.get("rec") in fields:
+                        pre.add((n["rec"], n["f"]))
+    for g in [f for f in F.fn_list if f.name.startswith(sig.name + "::{closure")]:
+        for pt, e in g.points():
+            for n in walk(e):
+                if n.get("k") == "mem" and n.get("rec") in fields:
+                    pre.add((n["rec"], n["f"]))
+    seen = pre | reads(dif)
+    ctx.analysed["lex_state_fields_compared_before_merging"] = sorted("%s.%s" % x for x in seen)
+    tabled = {}
+    for rec, fs in fields.items():
+        for f in fs:
+            key = "minimize_lex_table:compares:%s.%s" % (rec.split("::")[-1], f)
+            if (rec, f) in seen:
+                ctx.ok("G5", key, "%s.%s takes part in the signature or the refinement test" % (rec, f))
+            else:
+                ctx.bad("G5", key, "lex states are merged without comparing %s.%s: a state that skips a character and one that consumes it (or states with different accept/EOF behaviour) "
+                        "become one state, and the lexer restarts or truncates tokens" % (rec.split("::")[-1], f))
+    ctx.floor("fields of LexState/AdvanceAction", sum(len(v) for v in fields.values()), 5)
+
+
+def adt_fields(F, name):
+    for a in F.j.get("adts", []):
+        if a.get("name") == name and a.get("variants"):
+            return [f["name"] for f in a["variants"][0].get("fields", [])]
+    return None
 
 
 def c14_regex_threading(ctx, F):
